@@ -1,20 +1,38 @@
 ------------------------- MODULE BatchCgroupTrace -------------------------
-(* Trace validation for C14: one segment per pod.                            *)
-(*   reset : the inputs  containers = <<[name, req, lim, mem], ...>> (Absent *)
-(*           = -1), mark, cfs, rnum/rden (ratio, rnum = 0: none), mode (how  *)
-(*           the harness built the hook request: proxy | nri | reconciler)   *)
-(*   hook  : obs = [pod |-> [shares, quota, mem], containers |-> [name |->   *)
-(*           [shares, quota, mem]]], every value [set, v], read from         *)
-(*           Response.Resources of the real PodContext / ContainerContext    *)
-(*           after the real hook ran                                         *)
-(* The segment is accepted iff the observation satisfies HookOK (the         *)
-(* statement of C14 for that pod).                                           *)
+(* Trace validation for C14: one segment per pod and agent (plugin) instance. *)
+(*   reset : the pod  containers = <<[name, req, lim, mem], ...>> (Absent =   *)
+(*           -1: what the pod SPEC declares), mark, pre = [kind, raw] (the    *)
+(*           extended-resource-spec annotation the pod carries BEFORE         *)
+(*           admission; an input of the executor only - it declares nothing), *)
+(*           and the configuration delivered before the first event: cfs,     *)
+(*           rnum/rden (ratio, rnum = 0: none)                                *)
+(*   admit : the pod went through the real mutating webhook (Create);         *)
+(*           obs.allowed - a refused pod never reaches the agent              *)
+(*   node  : a Node object was delivered to the real parseRuleForNodeMeta:    *)
+(*           kind (valid | none | invalid), rnum/rden, raw (annotation value) *)
+(*   slo   : a NodeSLO was delivered to the real parseRuleForNodeSLO: enable, *)
+(*           policy (cpuset | cfsQuota | "" = strategy absent)                *)
+(*   conts : the container-level hook ran for every container of the admitted *)
+(*           pod in request mode `mode` (proxy | nri : amounts read from the  *)
+(*           annotation the webhook left; reconciler : from the pod object);  *)
+(*           obs.containers = [name |-> [shares, quota, mem]], every value    *)
+(*           [set, v], read from Response.Resources                           *)
+(*   hook  : the pod-level hook ran; obs.pod = [shares, quota, mem]           *)
+(* The configuration in force for a conts / hook event is the state (cfs,     *)
+(* ratio) produced by the deliveries so far. A conts event is accepted iff    *)
+(* ContsOK, a hook event iff PodOK and - against the containers observed last *)
+(* under the same configuration and mode - RelOK (the statement of C14).      *)
 EXTENDS BatchCgroup, TraceCommon
-VARIABLES inp
-vars == <<inp>>
+VARIABLES inp,      \* the reset event
+          cfs,      \* CFS quota enabled (last delivered NodeSLO)
+          ratio,    \* node CPU normalization ratio in force (last delivered Node)
+          adm,      \* "no" (not yet admitted) | "yes" | "refused"
+          lastc     \* [mode, vals] container values observed last under the current configuration (mode "" = none)
+vars == <<inp, cfs, ratio, adm, lastc>>
 
-Cfg(r) == [cfs |-> r.cfs, ratio |-> [num |-> r.rnum, den |-> r.rden]]
+Cfg == [cfs |-> cfs, ratio |-> ratio]
 Conts(r) == [i \in 1..Len(r.containers) |-> [req |-> r.containers[i].req, lim |-> r.containers[i].lim, mem |-> r.containers[i].mem]]
+NoConts == [mode |-> "", vals |-> <<>>]
 
 Show(w) == [shares |-> [set |-> TRUE, v |-> w.shares], quota |-> [set |-> TRUE, v |-> w.quota], mem |-> [set |-> TRUE, v |-> w.mem]]
 ShowUnset == [shares |-> [set |-> FALSE, v |-> 0], quota |-> [set |-> FALSE, v |-> 0], mem |-> [set |-> FALSE, v |-> 0]]
@@ -22,22 +40,54 @@ ShowUnset == [shares |-> [set |-> FALSE, v |-> 0], quota |-> [set |-> FALSE, v |
 ObsConts(r, obs) == [i \in 1..Len(r.containers) |-> obs.containers[r.containers[i].name]]
 \* what the statement prescribes, in the shape of obs (explain mode only; for a container that declares nothing
 \* "untouched" is shown when that is what was observed, since both are accepted)
-Expected(r, obs) ==
+ExpectedConts(r, obs) ==
     LET cs == Conts(r)
         names == {r.containers[i].name : i \in Idx(cs)}
         ix(nm) == CHOOSE i \in Idx(cs) : r.containers[i].name = nm
     IN
-    IF ~IsBE(r.mark) \/ ~UsesBatch(cs)
-    THEN [pod |-> ShowUnset, containers |-> [nm \in names |-> ShowUnset]]
-    ELSE [pod |-> Show(WantPod(cs, Cfg(r))),
-          containers |-> [nm \in names |-> IF ~Declares(cs[ix(nm)]) /\ Untouched(obs.containers[nm]) THEN ShowUnset
-                                            ELSE Show(WantContainer(cs[ix(nm)], Cfg(r)))]]
+    [cfg |-> Cfg,
+     containers |-> IF ~Scope(cs, r.mark) THEN [nm \in names |-> ShowUnset]
+                    ELSE [nm \in names |-> IF ~Declares(cs[ix(nm)]) /\ Untouched(obs.containers[nm]) THEN ShowUnset
+                                            ELSE Show(WantContainer(cs[ix(nm)], Cfg))]]
+ExpectedPod(r) ==
+    [cfg |-> Cfg, pod |-> IF ~Scope(Conts(r), r.mark) THEN ShowUnset ELSE Show(WantPod(Conts(r), Cfg))]
+
+TAdmit == /\ IsEvent("admit")
+          /\ adm = "no"
+          /\ adm' = IF Ev.obs.allowed THEN "yes" ELSE "refused"
+          /\ UNCHANGED <<inp, cfs, ratio, lastc>>
+
+TNode == /\ IsEvent("node")
+         /\ ratio' \in NodeRatios(ratio, Ev.kind, Ev.rnum, Ev.rden)
+         /\ lastc' = NoConts
+         /\ UNCHANGED <<inp, cfs, adm>>
+
+TSlo == /\ IsEvent("slo")
+        /\ cfs' = CfsAfterSLO(Ev.enable, Ev.policy)
+        /\ lastc' = NoConts
+        /\ UNCHANGED <<inp, ratio, adm>>
+
+TConts == /\ IsEvent("conts")
+          /\ adm = "yes"
+          /\ Expect(ContsOK(Conts(inp), inp.mark, Cfg, ObsConts(inp, Ev.obs)), ExpectedConts(inp, Ev.obs))
+          /\ lastc' = [mode |-> Ev.mode, vals |-> ObsConts(inp, Ev.obs)]
+          /\ UNCHANGED <<inp, cfs, ratio, adm>>
 
 THook == /\ IsEvent("hook")
+         /\ adm = "yes"
+         /\ Expect(/\ PodOK(Conts(inp), inp.mark, Cfg, Ev.obs.pod)
+                   /\ IF lastc.mode = Ev.mode THEN RelOK(Conts(inp), inp.mark, Ev.obs.pod, lastc.vals) ELSE TRUE,
+                   ExpectedPod(inp))
          /\ UNCHANGED vars
-         /\ Expect(HookOK(Conts(inp), inp.mark, Cfg(inp), Ev.obs.pod, ObsConts(inp, Ev.obs)), Expected(inp, Ev.obs))
 
-TraceInit == \E i \in Starts : TraceStart(i) /\ inp = Trace[i]
-TraceNext == THook \/ (SegDone /\ l > seg + 1 /\ UNCHANGED vars)     \* a segment without its hook event is not accepted
+TraceInit == \E i \in Starts :
+                /\ TraceStart(i)
+                /\ inp = Trace[i]
+                /\ cfs = Trace[i].cfs
+                /\ ratio = [num |-> Trace[i].rnum, den |-> Trace[i].rden]
+                /\ adm = "no"
+                /\ lastc = NoConts
+\* a segment is not accepted before the pod went through admission
+TraceNext == TAdmit \/ TNode \/ TSlo \/ TConts \/ THook \/ (SegDone /\ adm # "no" /\ UNCHANGED vars)
 TraceSpec == TraceInit /\ [][TraceNext]_<<vars, tvars>>
 =============================================================================
